@@ -21,6 +21,31 @@ def has_float(t):
     return False
 
 
+def float_text_only(py, cpp):
+    """the two texts have the same lines except that some 'name: value' lines show the same floating point number in
+    two spellings (Python repr: shortest round-trip digits, always a '.0' or an exponent; iostream: 6 significant digits)"""
+    a, b = py.split("\n"), cpp.split("\n")
+    if len(a) != len(b):
+        return False
+    diff = False
+    for x, y in zip(a, b):
+        if x == y:
+            continue
+        px, sx, vx = x.partition(": ")
+        qy, sy, vy = y.partition(": ")
+        if px != qy or not sx or not sy:
+            return False
+        try:
+            fx, fy = float(vx), float(vy)
+        except ValueError:
+            return False
+        if (fx != fx and fy != fy) or fx == fy or abs(fx - fy) <= 1e-5 * max(abs(fx), abs(fy)):
+            diff = True
+            continue
+        return False
+    return diff
+
+
 def main():
     chk = Check("C18")
     chk.build()
@@ -29,7 +54,7 @@ def main():
     cases, jobs, pyres, records, tail_ok, errors = C.canonical_ops(
         chk, 200 if quick else 600, 6 if quick else 2, 3 if quick else 4, rng, want=("encode", "str"), k=2)
     C.report_build_errors(chk, cases, errors)
-    skipped = {"float": 0, "greedy_tail": 0}
+    skipped = {"float": 0, "greedy_tail": 0}     # "float": not compared in Coq (still compared with each other)
     entries = []          # (i, vi, who, text)
     seen_py = set()
     for i, vi, e, h, o in records:
@@ -37,11 +62,11 @@ def main():
             continue
         t = cases[i][2]
         v = S.value_from_json(jobs[i]["values"][max(vi, 0)])
-        if has_float(t):
+        isf = has_float(t)      # float text is outside the Coq models (repr() / iostream formatting): no text_case for these
+        if isf:
             skipped["float"] += 1
-            continue
         py = pyres[i]["values"][vi].get("str")
-        if (i, vi) not in seen_py:
+        if (i, vi) not in seen_py and not isf:
             # the Python text of every value, whether or not the C++ side can hold it
             seen_py.add((i, vi))
             if py is None or py.startswith("EXC:"):
@@ -55,10 +80,12 @@ def main():
         chk.seen_class(S.shape_class(t, v), S.nontrivial(t, v))
         if not o.get("ok") or "print" not in o:
             continue      # C03's question
-        entries.append((i, vi, 1, o["print"]))
+        if not isf:
+            entries.append((i, vi, 1, o["print"]))
         if py is not None and not py.startswith("EXC:") and o["print"] != py:
             chk.violation("print-%d-%d" % (i, vi), C.case_of(cases, jobs, i, vi, {
-                "kind": "Python str() and C++ print() differ", "python": py, "cpp": o["print"], "canonical": h}))
+                "kind": "Python str() and C++ print() differ", "python": py, "cpp": o["print"], "canonical": h,
+                "float_text_only": bool(isf and float_text_only(py, o["print"]))}))
     # every text is compared inside Coq with the model of the implementation that produced it (the theorems' tie)
     # and with the specified text (the property's oracle)
     texts = {(i, vi, who): txt for i, vi, who, txt in entries}
@@ -93,11 +120,13 @@ def main():
             desc["kind"] = "broken correspondence: model/Print.v does not reproduce %s" % desc["implementation"]
             chk.violation("text-model-%d-%d" % (i, code), desc, "no-failing-input-found", match=False)
     chk.coverage["skipped_out_of_scope"] = skipped
-    chk.coverage["rule"] = ("schemas/values as in C03 without floating point members; the same value is held by a Python message "
+    chk.coverage["rule"] = ("schemas/values as in C03; the same value is held by a Python message "
                             "(str()) and by the C++ object decoded from its canonical bytes (print()); the two texts must be "
                             "byte-identical, and each is compared inside Coq (CheckLib.text_case) with the model of its "
                             "implementation (py_str / cpp_text: the tie of the theorems of props/C18.v) and with the specified "
-                            "text text_of (the oracle); this also catches one field changing how later ones are rendered.")
+                            "text text_of (the oracle); this also catches one field changing how later ones are rendered. Schemas with floating point "
+                            "members are outside the Coq models: their two texts are only compared with each other, and a difference confined to "
+                            "the spelling of the same float value is the known finding KF-P.")
     for i, vi, e, h, o in records[:400]:
         if "print" in o and len(o["print"]) > 40 and e == "little":
             chk.sample({"schema": S.to_prophy(cases[i][2]), "text": o["print"]})
